@@ -1,4 +1,5 @@
 import Proofs.Lemmas.ServerLocal
+import Proofs.Props.C15
 import Proofs.Lemmas.ServerBound
 import Proofs.Props.C09
 import Proofs.Lemmas.ClientInv
@@ -86,5 +87,16 @@ theorem C03_client_call_local (cfg : CCfg) (c : Cli α) (sid : Sid) (call : CCal
 theorem C03_no_hol_client (cfg : CCfg) (xs : List (CStim α)) :
     ∀ e ∈ (Cli.run cfg (Cli.start cfg) xs).1.streams, e.2.fc = true → e.2.unsupported = false :=
   Proofs.ClientInv.client_fc_never_unsupported cfg xs
+
+/-- **Code-level premise of "the receive loop never waits on one RPC"**
+    (regenerated from the sources on every run): no potentially blocking call
+    (carrier `Send`, window-update / send callback, user callback) is made
+    while holding a mutex the receive loop acquires when it dispatches a frame. -/
+theorem C03_no_blocking_call_under_loop_lock :
+    (Proofs.C15.blockingAllowed.filter Proofs.C15.loopLocks.contains) = [] ∧
+    (TunnelModel.Generated.accessTable.filter (fun a => a.how == "call" &&
+        (match Proofs.C15.protOf a with | some (.callUnder _) => true | _ => false) &&
+        a.held.any Proofs.C15.loopLocks.contains)) = [] :=
+  Proofs.C15.C15_blocking_calls_hold_no_loop_lock
 
 end Proofs.C03
